@@ -8,8 +8,8 @@ CONSTANTS
   RawTotal = 2
   Tmos <- T1
   MaxT = 2
-  Spurious = TRUE
-  Interrupts = TRUE
+  Spurious = FALSE
+  Interrupts = FALSE
   Bug = "wrongfail"
 INVARIANTS ViewIsFunctionOfMoved StreamExact ReadWriteComplete RecvSendBounds NoHangPastTimeout WaitsOnlyForData
 CHECK_DEADLOCK FALSE
